@@ -43,8 +43,8 @@ def configs():
 
 
 def shards(tier, seed):
-    out = [{"kind": "config", "transport": t, "model": md, "n": 40 if tier == "quick" else 400} for t, md in configs()]
-    out.append({"kind": "cross", "n": 12 if tier == "quick" else 200})
+    out = [{"kind": "config", "transport": t, "model": md, "n": 40 if tier == "quick" else 5000} for t, md in configs()]
+    out.append({"kind": "cross", "n": 12 if tier == "quick" else 2000})
     out.append({"kind": "control", "reps": 2 if tier == "quick" else 20})
     return out
 
